@@ -1,19 +1,20 @@
 import TinsModel.RadioTap.LemmasParser
-/- Helper lemmas for C11, part 4: `write_option` on a canonical payload. -/
+/- Helper lemmas for C11, part 4: `write_option` on a well-aligned header `layL M F fs`. -/
 namespace Tins.RT
 
-theorem PAt_has {M : Meta} (hwf : M.wf) {fs done rest : List (Nat × Bytes)} {b : Nat} {v : Bytes}
-    (hfs : fs = done ++ (b, v) :: rest) (hsz : Sized M fs) : hasFields M (stAt M fs done b) = true :=
-  hasFields_stAt hwf hfs hsz
+theorem PAt_has {M : Meta} (hwf : M.wf) (F : Frame) {fs done rest : List (Nat × Bytes)} {b : Nat} {v : Bytes}
+    (hfs : fs = done ++ (b, v) :: rest) (hsz : Sized M fs) : hasFields M (stAt M F fs done b) = true :=
+  hasFields_stAt hwf F hfs hsz
 
 /-- the search loop skips the lower fields `lo` and stops in front of the higher ones -/
-theorem searchLoop_insert {M : Meta} (hwf : M.wf) {fs : List (Nat × Bytes)} (hso : Sorted fs) (hsz : Sized M fs)
+theorem searchLoop_insert {M : Meta} (hwf : M.wf) {F : Frame} (hF : F.ok M) (hin : F.inert M)
+    {fs : List (Nat × Bytes)} (hso : Sorted fs) (hsz : Sized M fs)
     (bit dl : Nat) (hi : List (Nat × Bytes)) (hhi : ∀ f ∈ hi, bit < f.1) :
     ∀ (lo done : List (Nat × Bytes)) (p : Parser) (cand fuel : Nat),
-      fs = done ++ (lo ++ hi) → (∀ f ∈ lo, f.1 < bit) → PAt M fs done (lo ++ hi) p → cand + 4 = encEnd M done 8 →
-      fuel > lo.length →
-      ∃ p', PAt M fs (done ++ lo) hi p' ∧
-        searchLoop M fuel p bit dl cand = .insertAt p' (encEnd M (done ++ lo) 8 - 4) := by
+      fs = done ++ (lo ++ hi) → (∀ f ∈ lo, f.1 < bit) → PAt M F fs done (lo ++ hi) p →
+      (lo = [] → cand + 4 = encEnd M done F.base) → fuel > lo.length →
+      ∃ p', PAt M F fs (done ++ lo) hi p' ∧
+        searchLoop M fuel p bit dl cand = .insertAt p' (encEnd M (done ++ lo) F.base - 4) := by
   intro lo
   induction lo with
   | nil =>
@@ -23,7 +24,7 @@ theorem searchLoop_insert {M : Meta} (hwf : M.wf) {fs : List (Nat × Bytes)} (hs
     | succ f =>
       simp only [List.nil_append, List.append_nil] at hfs hp ⊢
       refine ⟨p, hp, ?_⟩
-      have hcand : encEnd M done 8 - 4 = cand := by omega
+      have hcand : encEnd M done F.base - 4 = cand := by have := hc rfl; omega
       cases hi with
       | nil =>
         have := hasFields_ended hp
@@ -32,10 +33,11 @@ theorem searchLoop_insert {M : Meta} (hwf : M.wf) {fs : List (Nat × Bytes)} (hs
         obtain ⟨b', v'⟩ := x
         simp only [PAt] at hp
         subst hp
-        have hh := hasFields_stAt hwf hfs hsz
+        have hh := hasFields_stAt hwf F hfs hsz
         have hgt : bit < b' := by have := hhi (b', v') (List.mem_cons_self ..); simpa using this
-        have hbit : (stAt M fs done b').bit = b' := rfl
-        simp [searchLoop, hh, hbit, hgt, hcand]
+        have hbit : (stAt M F fs done b').bit = b' := rfl
+        have hns : (stAt M F fs done b').ns = 0 := rfl
+        simp [searchLoop, hh, hbit, hns, hgt, hcand]
   | cons x lo' ih =>
     obtain ⟨b1, v1⟩ := x
     intro done p cand fuel hfs hlo hp hc hf
@@ -44,32 +46,35 @@ theorem searchLoop_insert {M : Meta} (hwf : M.wf) {fs : List (Nat × Bytes)} (hs
     | succ f =>
       simp only [List.cons_append, PAt] at hfs hp
       subst hp
-      have hh := hasFields_stAt hwf hfs hsz
+      have hh := hasFields_stAt hwf F hfs hsz
       have hlt : b1 < bit := by have := hlo (b1, v1) (List.mem_cons_self ..); simpa using this
-      have hbit : (stAt M fs done b1).bit = b1 := rfl
+      have hbit : (stAt M F fs done b1).bit = b1 := rfl
       have hngt : ¬ (b1 > bit) := by omega
       have hne : ¬ (b1 = bit) := by omega
       obtain ⟨_, hv1⟩ := sized_mem hsz hfs
-      have h8 := le_encEnd M done 8
-      have hstep := advanceField_step hwf hfs hso hsz
+      have h8 := le_encEnd M done F.base
+      have hbase : 8 ≤ F.base := by simp [Frame.base]
+      have hstep := advanceField_step hwf hF hfs hso hsz (fun _ => hin)
       have hfs2 : fs = (done ++ [(b1, v1)]) ++ (lo' ++ hi) := by rw [hfs]; simp
-      obtain ⟨p', hp', hres⟩ := ih (done ++ [(b1, v1)]) (advanceField M (stAt M fs done b1)).1
-        ((stAt M fs done b1).ptr + M.size b1) f hfs2
+      obtain ⟨p', hp', hres⟩ := ih (done ++ [(b1, v1)]) (advanceField M (stAt M F fs done b1)).1
+        ((stAt M F fs done b1).ptr + M.size b1) f hfs2
         (fun g hg => hlo g (List.mem_cons_of_mem _ hg)) hstep
-        (by simp only [stAt, encEnd_snoc, hv1]; omega) (by simp at hf; omega)
+        (fun _ => by simp only [stAt, encEnd_snoc, hv1]; omega) (by simp at hf; omega)
       refine ⟨p', by simpa using hp', ?_⟩
+      have hns : ((stAt M F fs done b1).ns == 0) = true := rfl
       unfold searchLoop
-      simp only [hh, hbit, hngt, hne, if_true, if_false]
+      simp only [hh, hns, Bool.and_self, hbit, hngt, hne, if_true, if_false]
       rw [hres]
       simp
 
-/-- the search loop finds a field that is present -/
-theorem searchLoop_found {M : Meta} (hwf : M.wf) {fs : List (Nat × Bytes)} (hso : Sorted fs) (hsz : Sized M fs)
+/-- the search loop finds a field of the first present word (whatever follows the first word's fields) -/
+theorem searchLoop_found {M : Meta} (hwf : M.wf) {F : Frame} (hF : F.ok M)
+    {fs : List (Nat × Bytes)} (hso : Sorted fs) (hsz : Sized M fs)
     (bit dl : Nat) (old : Bytes) (hi : List (Nat × Bytes)) (hdl : dl ≤ old.length) :
     ∀ (lo done : List (Nat × Bytes)) (p : Parser) (cand fuel : Nat),
-      fs = done ++ (lo ++ (bit, old) :: hi) → (∀ f ∈ lo, f.1 < bit) → PAt M fs done (lo ++ (bit, old) :: hi) p →
+      fs = done ++ (lo ++ (bit, old) :: hi) → (∀ f ∈ lo, f.1 < bit) → PAt M F fs done (lo ++ (bit, old) :: hi) p →
       fuel > lo.length →
-      searchLoop M fuel p bit dl cand = .found (stAt M fs (done ++ lo) bit) := by
+      searchLoop M fuel p bit dl cand = .found (stAt M F fs (done ++ lo) bit) := by
   intro lo
   induction lo with
   | nil =>
@@ -79,17 +84,19 @@ theorem searchLoop_found {M : Meta} (hwf : M.wf) {fs : List (Nat × Bytes)} (hso
     | succ f =>
       simp only [List.nil_append, List.append_nil, PAt] at hfs hp ⊢
       subst hp
-      have hh := hasFields_stAt hwf hfs hsz
-      have hbit : (stAt M fs done bit).bit = bit := rfl
-      have hlen := canonL_length M fs
-      have hend : encEnd M fs 8 = encEnd M hi (encEnd M done 8 + padTo (M.align bit) (encEnd M done 8) + old.length) := by
+      have hh := hasFields_stAt hwf F hfs hsz
+      have hbit : (stAt M F fs done bit).bit = bit := rfl
+      have hlen := layL_length' M F fs
+      have hend : encEnd M fs F.base = encEnd M hi (encEnd M done F.base + padTo (M.align bit) (encEnd M done F.base) + old.length) := by
         rw [hfs, encEnd_append, encEnd_cons]
-      have hle := le_encEnd M hi (encEnd M done 8 + padTo (M.align bit) (encEnd M done 8) + old.length)
-      have h8 := le_encEnd M done 8
-      have hav : ¬ (dl > (stAt M fs done bit).buf.length - (stAt M fs done bit).ptr) := by
+      have hle := le_encEnd M hi (encEnd M done F.base + padTo (M.align bit) (encEnd M done F.base) + old.length)
+      have h8 := le_encEnd M done F.base
+      have hbase : 8 ≤ F.base := by simp [Frame.base]
+      have hav : ¬ (dl > (stAt M F fs done bit).buf.length - (stAt M F fs done bit).ptr) := by
         simp only [stAt]; omega
+      have hns : (stAt M F fs done bit).ns = 0 := rfl
       unfold searchLoop
-      simp [hh, hbit, hav]
+      simp [hh, hbit, hns, hav]
   | cons x lo' ih =>
     obtain ⟨b1, v1⟩ := x
     intro done p cand fuel hfs hlo hp hf
@@ -98,26 +105,28 @@ theorem searchLoop_found {M : Meta} (hwf : M.wf) {fs : List (Nat × Bytes)} (hso
     | succ f =>
       simp only [List.cons_append, PAt] at hfs hp
       subst hp
-      have hh := hasFields_stAt hwf hfs hsz
+      have hh := hasFields_stAt hwf F hfs hsz
       have hlt : b1 < bit := by have := hlo (b1, v1) (List.mem_cons_self ..); simpa using this
-      have hbit : (stAt M fs done b1).bit = b1 := rfl
+      have hbit : (stAt M F fs done b1).bit = b1 := rfl
       have hngt : ¬ (b1 > bit) := by omega
       have hne : ¬ (b1 = bit) := by omega
-      have hstep := advanceField_step hwf hfs hso hsz
+      have hstep := advanceField_step hwf hF hfs hso hsz (fun h => by simp at h)
       have hfs2 : fs = (done ++ [(b1, v1)]) ++ (lo' ++ (bit, old) :: hi) := by rw [hfs]; simp
-      have hres := ih (done ++ [(b1, v1)]) (advanceField M (stAt M fs done b1)).1
-        ((stAt M fs done b1).ptr + M.size b1) f hfs2
+      have hres := ih (done ++ [(b1, v1)]) (advanceField M (stAt M F fs done b1)).1
+        ((stAt M F fs done b1).ptr + M.size b1) f hfs2
         (fun g hg => hlo g (List.mem_cons_of_mem _ hg)) hstep (by simp at hf; omega)
+      have hns : ((stAt M F fs done b1).ns == 0) = true := rfl
       unfold searchLoop
-      simp only [hh, hbit, hngt, hne, if_true, if_false]
+      simp only [hh, hns, Bool.and_self, hbit, hngt, hne, if_true, if_false]
       rw [hres]
       simp
 
-/-- `build_padding_vector` describes exactly the remaining fields -/
-theorem buildPaddingVector_spec {M : Meta} (hwf : M.wf) {fs : List (Nat × Bytes)} (hso : Sorted fs) (hsz : Sized M fs) :
+/-- `build_padding_vector` describes exactly the remaining fields of the first present word -/
+theorem buildPaddingVector_spec {M : Meta} (hwf : M.wf) {F : Frame} (hF : F.ok M) (hin : F.inert M)
+    {fs : List (Nat × Bytes)} (hso : Sorted fs) (hsz : Sized M fs) :
     ∀ (rest done : List (Nat × Bytes)) (p : Parser) (last fuel : Nat),
-      fs = done ++ rest → PAt M fs done rest p → last + 4 = encEnd M done 8 → fuel > rest.length →
-      buildPaddingVector M fuel p last = descL M rest (encEnd M done 8) := by
+      fs = done ++ rest → PAt M F fs done rest p → last + 4 = encEnd M done F.base → fuel > rest.length →
+      buildPaddingVector M fuel p last = descL M rest (encEnd M done F.base) := by
   intro rest
   induction rest with
   | nil =>
@@ -135,17 +144,18 @@ theorem buildPaddingVector_spec {M : Meta} (hwf : M.wf) {fs : List (Nat × Bytes
     | succ f =>
       simp only [PAt] at hp
       subst hp
-      have hh := hasFields_stAt hwf hfs hsz
+      have hh := hasFields_stAt hwf F hfs hsz
       obtain ⟨_, hv⟩ := sized_mem hsz hfs
-      have h8 := le_encEnd M done 8
-      have hstep := advanceField_step hwf hfs hso hsz
+      have h8 := le_encEnd M done F.base
+      have hbase : 8 ≤ F.base := by simp [Frame.base]
+      have hstep := advanceField_step hwf hF hfs hso hsz (fun _ => hin)
       have hfs2 : fs = (done ++ [(b, v)]) ++ rest' := by rw [hfs]; simp
-      have hres := ih (done ++ [(b, v)]) (advanceField M (stAt M fs done b)).1
-        ((stAt M fs done b).ptr + M.size b) f hfs2 hstep
+      have hres := ih (done ++ [(b, v)]) (advanceField M (stAt M F fs done b)).1
+        ((stAt M F fs done b).ptr + M.size b) f hfs2 hstep
         (by simp only [stAt, encEnd_snoc, hv]; omega) (by simp at hf; omega)
-      have hpad : (stAt M fs done b).ptr - last = padTo (M.align b) (encEnd M done 8) := by
+      have hpad : (stAt M F fs done b).ptr - last = padTo (M.align b) (encEnd M done F.base) := by
         simp only [stAt]; omega
-      have hbit : (stAt M fs done b).bit = b := rfl
+      have hbit : (stAt M F fs done b).bit = b := rfl
       unfold buildPaddingVector
       simp only [hh, if_true, descL]
       rw [hpad, hbit, hres, encEnd_snoc]
@@ -190,10 +200,27 @@ theorem sized_append_right {M : Meta} {xs ys : List (Nat × Bytes)} (h : Sized M
 theorem canonL_nonempty (M : Meta) (fs : List (Nat × Bytes)) : (canonL M fs).isEmpty = false := by
   simp [canonL, le32]
 
-/-- `write_option` of a field that is not yet present, on the canonical payload of `lo ++ hi` -/
-theorem writeOption_insert {M : Meta} (hwf : M.wf) (lo hi : List (Nat × Bytes)) (bit : Nat) (data : Bytes)
+theorem or_right_comm' (a b c : Nat) : (a ||| b) ||| c = (a ||| c) ||| b := by
+  rw [Nat.or_assoc, Nat.or_comm b c, ← Nat.or_assoc]
+
+/-- with `M.lowAlign`, a field above bit 0 placed right after the present words needs no padding -/
+theorem padTo_base {M : Meta} (hla : M.lowAlign) {F : Frame} (hF : F.ok M) (b : Nat) (hb0 : 0 < b) (hb : b < M.max) :
+    padTo (M.align b) F.base = 0 := by
+  have h4 := hla b hb hb0
+  have hw := wsb_length hF
+  unfold padTo Frame.base
+  rw [hw]
+  have h8 : (8 + 4 * F.k) % M.align b = 0 := by
+    have : 8 + 4 * F.k = 4 * (2 + F.k) := by omega
+    rw [this]
+    exact Nat.mod_eq_zero_of_dvd (Nat.dvd_trans (Nat.dvd_of_mod_eq_zero h4) (Nat.dvd_mul_right 4 _))
+  simp [h8]
+
+/-- `write_option` of a field that is not yet present in the first present word, on the header of `lo ++ hi` -/
+theorem writeOption_insert {M : Meta} (hwf : M.wf) (hla : M.lowAlign) {F : Frame} (hF : F.ok M) (hin : F.inert M)
+    (lo hi : List (Nat × Bytes)) (bit : Nat) (data : Bytes)
     (hso : Sorted (lo ++ (bit, data) :: hi)) (hsz : Sized M (lo ++ (bit, data) :: hi)) :
-    writeOption M (canonL M (lo ++ hi)) bit data = .ok (canonL M (lo ++ (bit, data) :: hi)) := by
+    writeOption M (layL M F (lo ++ hi)) bit data = .ok (layL M F (lo ++ (bit, data) :: hi)) := by
   obtain ⟨hlo, hhi, hshi⟩ := sorted_split hso
   simp only at hlo hhi
   obtain ⟨hbit, hdata⟩ := sized_mem hsz rfl
@@ -213,122 +240,118 @@ theorem writeOption_insert {M : Meta} (hwf : M.wf) (lo hi : List (Nat × Bytes))
     · exact Or.inl hf
     · exact Or.inr (List.mem_cons_of_mem _ hf)
   have hszhi : Sized M hi := sized_append_right hsz'
-  have hne := canonL_nonempty M (lo ++ hi)
+  have hne := layL_nonempty M F (lo ++ hi)
+  have hbase : 8 ≤ F.base := by simp [Frame.base]
   -- the parser and the search loop
-  have hmk : ∃ p, Parser.mk' M (canonL M (lo ++ hi)) = .ok p ∧ PAt M (lo ++ hi) [] (lo ++ hi) p ∧ p.ptr = 4 := by
-    cases hfs : lo ++ hi with
-    | nil =>
-      obtain ⟨p, h1, h2, h3⟩ := mk_empty (M := M) hwf
-      exact ⟨p, h1, h2, h3⟩
-    | cons x r =>
-      obtain ⟨b0, v0⟩ := x
-      have hb0 : b0 < M.max := by
-        have := hsz' (b0, v0) (by rw [hfs]; exact List.mem_cons_self ..); exact this.1
-      have hal0 := (hwf.2 b0 hb0).2
-      refine ⟨stAt M ((b0, v0) :: r) [] b0, ?_, rfl, ?_⟩
-      · exact mk_nonempty hwf rfl (hfs ▸ hso') (hfs ▸ hsz')
-      · simp [stAt, encEnd_nil, padTo_eight _ hal0]
-  obtain ⟨p0, hp0, hpat0, hptr0⟩ := hmk
-  have hfuel_lo : (loopFuel M (canonL M (lo ++ hi))) > lo.length :=
+  obtain ⟨p0, hp0, hpat0, hptr0, _⟩ := mk_layL hwf hF hso' hsz'
+  have hcand0 : lo = [] → p0.ptr + 4 = encEnd M [] F.base := by
+    intro hlo0
+    rw [encEnd_nil]
+    cases hhi0 : hi with
+    | nil => exact hptr0 (by rw [hlo0, hhi0]; rfl)
+    | cons x hi' =>
+      obtain ⟨b', v'⟩ := x
+      have hp : p0 = stAt M F (lo ++ hi) [] b' := by
+        have := hpat0
+        rw [hlo0, hhi0] at this
+        simpa [PAt, hlo0, hhi0] using this
+      have hb'gt : bit < b' := by have := hhi (b', v') (by rw [hhi0]; exact List.mem_cons_self ..); simpa using this
+      have hb'm : b' < M.max := (hszhi (b', v') (by rw [hhi0]; exact List.mem_cons_self ..)).1
+      rw [hp]
+      simp only [stAt, encEnd_nil, padTo_base hla hF b' (by omega) hb'm]
+      omega
+  have hfuel_lo : (loopFuel M (layL M F (lo ++ hi))) > lo.length :=
     length_lt_loopFuel (sorted_append_left hso') (sized_append_left hsz') _
-  have hfuel_hi : (loopFuel M (canonL M (lo ++ hi))) > hi.length :=
+  have hfuel_hi : (loopFuel M (layL M F (lo ++ hi))) > hi.length :=
     length_lt_loopFuel (sorted_append_right hso') hszhi _
-  obtain ⟨p1, hpat1, hsearch⟩ := searchLoop_insert hwf hso' hsz' bit data.length hi hhi lo [] p0 p0.ptr
-    (loopFuel M (canonL M (lo ++ hi))) (by simp) hlo hpat0 (by rw [hptr0, encEnd_nil]) hfuel_lo
+  obtain ⟨p1, hpat1, hsearch⟩ := searchLoop_insert hwf hF hin hso' hsz' bit data.length hi hhi lo [] p0 p0.ptr
+    (loopFuel M (layL M F (lo ++ hi))) (by simp) hlo hpat0 hcand0 hfuel_lo
   simp only [List.nil_append] at hpat1 hsearch
-  have h8 := le_encEnd M lo 8
-  have hbuild := buildPaddingVector_spec hwf hso' hsz' hi lo p1 (encEnd M lo 8 - 4)
-    (loopFuel M (canonL M (lo ++ hi))) rfl hpat1 (by omega) hfuel_hi
+  have h8 := le_encEnd M lo F.base
+  have hbuild := buildPaddingVector_spec hwf hF hin hso' hsz' hi lo p1 (encEnd M lo F.base - 4)
+    (loopFuel M (layL M F (lo ++ hi))) rfl hpat1 (by omega) hfuel_hi
   -- the buffer, split at the insertion point
-  have hW := presentWord_small hwf hsz'
-  have hB : canonL M (lo ++ hi) = (le32 (presentWord (lo ++ hi)) ++ enc M lo 8) ++ enc M hi (encEnd M lo 8) := by
-    simp [canonL, enc_append]
-  have hPlen : (le32 (presentWord (lo ++ hi)) ++ enc M lo 8).length = encEnd M lo 8 - 4 := by
-    simp [le32, encEnd]; omega
-  have hpadding : calculatePadding (M.align bit) (encEnd M lo 8 - 4 + 4) = padTo (M.align bit) (encEnd M lo 8) := by
+  have hW := W_lt hwf hF hsz'
+  have hB : layL M F (lo ++ hi) = (le32 (presentWord (lo ++ hi) ||| F.hb) ++ F.wsb ++ enc M lo F.base) ++
+      (enc M hi (encEnd M lo F.base) ++ F.tail) := by
+    simp [layL, enc_append]
+  have hPlen : (le32 (presentWord (lo ++ hi) ||| F.hb) ++ F.wsb ++ enc M lo F.base).length = encEnd M lo F.base - 4 := by
+    simp [le32, encEnd, Frame.base]; omega
+  have hpadding : calculatePadding (M.align bit) (encEnd M lo F.base - 4 + 4) = padTo (M.align bit) (encEnd M lo F.base) := by
     rw [calculatePadding_eq _ _ hapos]
     congr 1
     omega
-  have hnot : ¬ (encEnd M lo 8 - 4 > (canonL M (lo ++ hi)).length) := by
+  have hnot : ¬ (encEnd M lo F.base - 4 > (layL M F (lo ++ hi)).length) := by
     rw [hB, List.length_append, hPlen]; omega
-  have htake : (canonL M (lo ++ hi)).take (encEnd M lo 8 - 4) = le32 (presentWord (lo ++ hi)) ++ enc M lo 8 := by
+  have htake : (layL M F (lo ++ hi)).take (encEnd M lo F.base - 4)
+      = le32 (presentWord (lo ++ hi) ||| F.hb) ++ F.wsb ++ enc M lo F.base := by
     rw [hB]; exact List.take_left' hPlen
-  have hdrop : (canonL M (lo ++ hi)).drop (encEnd M lo 8 - 4) = enc M hi (encEnd M lo 8) := by
+  have hdrop : (layL M F (lo ++ hi)).drop (encEnd M lo F.base - 4) = enc M hi (encEnd M lo F.base) ++ F.tail := by
     rw [hB]; exact List.drop_left' hPlen
-  let pre := le32 (presentWord (lo ++ hi)) ++ enc M lo 8 ++ zeros (padTo (M.align bit) (encEnd M lo 8)) ++ data
-  have hprelen : pre.length + 4 = encEnd M lo 8 + padTo (M.align bit) (encEnd M lo 8) + data.length := by
-    simp only [pre, List.length_append, zeros_length, hPlen]
+  let pre := le32 (presentWord (lo ++ hi) ||| F.hb) ++ F.wsb ++ enc M lo F.base ++
+    zeros (padTo (M.align bit) (encEnd M lo F.base)) ++ data
+  have hprelen : pre.length + 4 = encEnd M lo F.base + padTo (M.align bit) (encEnd M lo F.base) + data.length := by
+    simp only [pre, List.length_append, zeros_length]
     have := hPlen
     simp only [List.length_append] at this
     omega
-  have hupd := updatePaddings_spec M hwf hi (encEnd M lo 8) 0 0
-    ((encEnd M lo 8 - 4 + padTo (M.align bit) (encEnd M lo 8) + data.length : Nat) : Int) pre
-    ((descL M hi (encEnd M lo 8)).length + 1) hszhi (by omega)
+  have hupd := updatePaddings_spec M hwf F.tail hi (encEnd M lo F.base) 0 0
+    ((encEnd M lo F.base - 4 + padTo (M.align bit) (encEnd M lo F.base) + data.length : Nat) : Int) pre
+    ((descL M hi (encEnd M lo F.base)).length + 1) hszhi (by omega)
     (by omega)
   simp only [List.replicate_zero, List.nil_append] at hupd
   -- run the code
   unfold writeOption
   have hbit' : ¬ (bit ≥ M.max) := by omega
   simp only [hbit', if_false, hp0, hsearch, hne, Bool.false_eq_true, hbuild, hpadding, hnot, htake, hdrop]
-  have hbuf1 : le32 (presentWord (lo ++ hi)) ++ enc M lo 8 ++ zeros (padTo (M.align bit) (encEnd M lo 8)) ++ data ++
-      enc M hi (encEnd M lo 8) = pre ++ enc M hi (encEnd M lo 8) := rfl
+  have hbuf1 : le32 (presentWord (lo ++ hi) ||| F.hb) ++ F.wsb ++ enc M lo F.base ++
+      zeros (padTo (M.align bit) (encEnd M lo F.base)) ++ data ++
+      (enc M hi (encEnd M lo F.base) ++ F.tail) = pre ++ (enc M hi (encEnd M lo F.base) ++ F.tail) := rfl
   rw [hbuf1, hupd]
   simp only
-  have hread : read32 (pre ++ enc M hi (pre.length + 4)) 0 = presentWord (lo ++ hi) := by
+  have hread : read32 (pre ++ (enc M hi (pre.length + 4) ++ F.tail)) 0 = presentWord (lo ++ hi) ||| F.hb := by
     simp only [pre, List.append_assoc]
     rw [read32_le32]; omega
-  have hdrop4 : (pre ++ enc M hi (pre.length + 4)).drop 4
-      = enc M lo 8 ++ (zeros (padTo (M.align bit) (encEnd M lo 8)) ++ (data ++ enc M hi (pre.length + 4))) := by
+  have hdrop4 : (pre ++ (enc M hi (pre.length + 4) ++ F.tail)).drop 4
+      = F.wsb ++ (enc M lo F.base ++ (zeros (padTo (M.align bit) (encEnd M lo F.base)) ++
+          (data ++ (enc M hi (pre.length + 4) ++ F.tail)))) := by
     simp only [pre, List.append_assoc]
     rw [drop4_le32]
-  rw [hread, hdrop4, hprelen]
-  simp only [canonL, presentWord_insert, enc_append, enc, List.append_assoc]
+  rw [hread, hdrop4, hprelen, or_right_comm']
+  simp only [layL, presentWord_insert, enc_append, enc, List.append_assoc]
 
-/-- parser construction on any canonical payload -/
-theorem mk_canonL {M : Meta} (hwf : M.wf) {fs : List (Nat × Bytes)} (hso : Sorted fs) (hsz : Sized M fs) :
-    ∃ p, Parser.mk' M (canonL M fs) = .ok p ∧ PAt M fs [] fs p ∧ p.ptr = 4 ∧ p.buf = canonL M fs ∧ p.null = false ∧ p.ns = 0 := by
-  cases hfs : fs with
-  | nil =>
-    obtain ⟨p, h1, h2, h3⟩ := mk_empty (M := M) hwf
-    exact ⟨p, h1, h2, h3, h2.1, h2.2.1, h2.2.2.1⟩
-  | cons x r =>
-    obtain ⟨b0, v0⟩ := x
-    have hb0 : b0 < M.max := by
-      have := hsz (b0, v0) (by rw [hfs]; exact List.mem_cons_self ..); exact this.1
-    have hal0 := (hwf.2 b0 hb0).2
-    refine ⟨stAt M ((b0, v0) :: r) [] b0, ?_, rfl, ?_, rfl, rfl, rfl⟩
-    · exact mk_nonempty hwf rfl (hfs ▸ hso) (hfs ▸ hsz)
-    · simp [stAt, encEnd_nil, padTo_eight _ hal0]
+/-- where a field of the first present word sits in the header -/
+theorem layL_split (M : Meta) (F : Frame) (lo hi : List (Nat × Bytes)) (bit : Nat) (v : Bytes) :
+    layL M F (lo ++ (bit, v) :: hi)
+      = (le32 (presentWord (lo ++ (bit, v) :: hi) ||| F.hb) ++ F.wsb ++ enc M lo F.base ++
+          zeros (padTo (M.align bit) (encEnd M lo F.base))) ++
+        (v ++ (enc M hi (encEnd M lo F.base + padTo (M.align bit) (encEnd M lo F.base) + v.length) ++ F.tail)) := by
+  simp [layL, enc_append, enc]
 
-/-- where a present field sits in the canonical payload -/
-theorem canonL_split (M : Meta) (lo hi : List (Nat × Bytes)) (bit : Nat) (v : Bytes) :
-    canonL M (lo ++ (bit, v) :: hi)
-      = (le32 (presentWord (lo ++ (bit, v) :: hi)) ++ enc M lo 8 ++ zeros (padTo (M.align bit) (encEnd M lo 8))) ++
-        (v ++ enc M hi (encEnd M lo 8 + padTo (M.align bit) (encEnd M lo 8) + v.length)) := by
-  simp [canonL, enc_append, enc]
+theorem layL_split_len (M : Meta) (F : Frame) (lo : List (Nat × Bytes)) (bit W : Nat) :
+    (le32 W ++ F.wsb ++ enc M lo F.base ++ zeros (padTo (M.align bit) (encEnd M lo F.base))).length
+      = encEnd M lo F.base + padTo (M.align bit) (encEnd M lo F.base) - 4 := by
+  simp [le32, encEnd, zeros_length, Frame.base]; omega
 
-theorem canonL_split_len (M : Meta) (lo : List (Nat × Bytes)) (bit W : Nat) :
-    (le32 W ++ enc M lo 8 ++ zeros (padTo (M.align bit) (encEnd M lo 8))).length
-      = encEnd M lo 8 + padTo (M.align bit) (encEnd M lo 8) - 4 := by
-  simp [le32, encEnd, zeros_length]; omega
-
-/-- `write_option` of a field that is already present: overwritten in place -/
-theorem writeOption_overwrite {M : Meta} (hwf : M.wf) (lo hi : List (Nat × Bytes)) (bit : Nat) (old data : Bytes)
-    (hso : Sorted (lo ++ (bit, old) :: hi)) (hsz : Sized M (lo ++ (bit, old) :: hi)) (hlen : data.length = old.length) :
-    writeOption M (canonL M (lo ++ (bit, old) :: hi)) bit data = .ok (canonL M (lo ++ (bit, data) :: hi)) := by
+/-- `write_option` of a field that is already present in the first present word: overwritten in place, whatever
+    follows the first word's fields -/
+theorem writeOption_overwrite {M : Meta} (hwf : M.wf) {F : Frame} (hF : F.ok M) (lo hi : List (Nat × Bytes)) (bit : Nat)
+    (old data : Bytes) (hso : Sorted (lo ++ (bit, old) :: hi)) (hsz : Sized M (lo ++ (bit, old) :: hi))
+    (hlen : data.length = old.length) :
+    writeOption M (layL M F (lo ++ (bit, old) :: hi)) bit data = .ok (layL M F (lo ++ (bit, data) :: hi)) := by
   obtain ⟨hlo, _, _⟩ := sorted_split hso
   simp only at hlo
   obtain ⟨hbit, hold⟩ := sized_mem hsz rfl
-  obtain ⟨p0, hp0, hpat0, hptr0, _⟩ := mk_canonL hwf hso hsz
-  have hfound := searchLoop_found hwf hso hsz bit data.length old hi (by omega) lo [] p0 p0.ptr
-    (loopFuel M (canonL M (lo ++ (bit, old) :: hi))) (by simp) hlo hpat0
+  obtain ⟨p0, hp0, hpat0, _, _⟩ := mk_layL hwf hF hso hsz
+  have hfound := searchLoop_found hwf hF hso hsz bit data.length old hi (by omega) lo [] p0 p0.ptr
+    (loopFuel M (layL M F (lo ++ (bit, old) :: hi))) (by simp) hlo hpat0
     (length_lt_loopFuel (sorted_append_left hso) (sized_append_left hsz) _)
   simp only [List.nil_append] at hfound
-  have hsplit := canonL_split M lo hi bit old
-  have hplen := canonL_split_len M lo bit (presentWord (lo ++ (bit, old) :: hi))
-  have hptr : (stAt M (lo ++ (bit, old) :: hi) lo bit).ptr
-      = encEnd M lo 8 + padTo (M.align bit) (encEnd M lo 8) - 4 := rfl
-  have hnot : ¬ ((stAt M (lo ++ (bit, old) :: hi) lo bit).ptr + data.length > (canonL M (lo ++ (bit, old) :: hi)).length) := by
+  have hsplit := layL_split M F lo hi bit old
+  have hplen := layL_split_len M F lo bit (presentWord (lo ++ (bit, old) :: hi) ||| F.hb)
+  have hptr : (stAt M F (lo ++ (bit, old) :: hi) lo bit).ptr
+      = encEnd M lo F.base + padTo (M.align bit) (encEnd M lo F.base) - 4 := rfl
+  have hnot : ¬ ((stAt M F (lo ++ (bit, old) :: hi) lo bit).ptr + data.length > (layL M F (lo ++ (bit, old) :: hi)).length) := by
     rw [hptr, hsplit, List.length_append, hplen]
     simp only [List.length_append]
     omega
@@ -336,13 +359,14 @@ theorem writeOption_overwrite {M : Meta} (hwf : M.wf) (lo hi : List (Nat × Byte
   have hbit' : ¬ (bit ≥ M.max) := by omega
   simp only [hbit', if_false, hp0, hfound, hptr]
   rw [hsplit, List.take_left' hplen]
-  have hd : (le32 (presentWord (lo ++ (bit, old) :: hi)) ++ enc M lo 8 ++ zeros (padTo (M.align bit) (encEnd M lo 8)) ++
-      (old ++ enc M hi (encEnd M lo 8 + padTo (M.align bit) (encEnd M lo 8) + old.length))).drop
-        (encEnd M lo 8 + padTo (M.align bit) (encEnd M lo 8) - 4 + data.length)
-      = enc M hi (encEnd M lo 8 + padTo (M.align bit) (encEnd M lo 8) + old.length) := by
+  have hd : (le32 (presentWord (lo ++ (bit, old) :: hi) ||| F.hb) ++ F.wsb ++ enc M lo F.base ++
+      zeros (padTo (M.align bit) (encEnd M lo F.base)) ++
+      (old ++ (enc M hi (encEnd M lo F.base + padTo (M.align bit) (encEnd M lo F.base) + old.length) ++ F.tail))).drop
+        (encEnd M lo F.base + padTo (M.align bit) (encEnd M lo F.base) - 4 + data.length)
+      = enc M hi (encEnd M lo F.base + padTo (M.align bit) (encEnd M lo F.base) + old.length) ++ F.tail := by
     rw [← hplen, List.drop_length_add_append, hlen]
     exact List.drop_left
-  rw [hd, canonL_split M lo hi bit data, presentWord_replace lo hi bit old data, hlen]
+  rw [hd, layL_split M F lo hi bit data, presentWord_replace lo hi bit old data, hlen]
   simp only [List.append_assoc]
   rw [if_neg]
   have := hplen
